@@ -3,7 +3,12 @@
 // variable VERIF_C35_CHILD): the child reports when it sees its standard input
 // close and when it receives SIGTERM (monotonic clock, appended to a report
 // file), and exits by itself after a delay, a delay after stdin closes, a delay
-// after SIGTERM, or never (it then only dies of SIGKILL). After Close returns
+// after SIGTERM, or never (it then only dies of SIGKILL). The stream is built
+// the way the transports build it (transport.NewStream with a standard error
+// receiver), and half of the agents first start a descendant that inherits
+// their standard error, detaches into its own session and outlives them (like
+// a backgrounded helper of an SSH or Docker transport); the harness kills it
+// when the case is over. After Close returns
 // the child must be gone: reaped by Wait and no such pid. A watchdog far beyond
 // the sum of the waits turns a Close that does not return into an observation
 // instead of a hang.
@@ -37,6 +42,21 @@ type Case struct {
 	Self  int `json:"self"`
 	Stdin int `json:"stdin"`
 	Term  int `json:"term"`
+	// Linger: the agent leaves a descendant behind that keeps standard error open.
+	Linger bool `json:"linger,omitempty"`
+}
+
+// lockedBuffer receives the agent's standard error.
+type lockedBuffer struct {
+	mu sync.Mutex
+	n  int
+}
+
+func (b *lockedBuffer) Write(p []byte) (int, error) {
+	b.mu.Lock()
+	b.n += len(p)
+	b.mu.Unlock()
+	return len(p), nil
 }
 
 func mono() int64 {
@@ -63,11 +83,25 @@ func child(spec string) {
 			c.Term = n
 		case "report":
 			report = v
+		case "linger":
+			c.Linger = n == 1
 		}
 	}
 	rf, err := os.OpenFile(report, os.O_WRONLY|os.O_APPEND|os.O_CREATE, 0o600)
 	if err != nil {
 		os.Exit(3)
+	}
+	if c.Linger {
+		// a descendant that inherits only our standard error, lives in its own
+		// session and outlives us
+		d := exec.Command(os.Args[0])
+		d.Env = append(os.Environ(), "VERIF_C35_CHILD=lingerer")
+		d.Stderr = os.Stderr
+		d.SysProcAttr = &syscall.SysProcAttr{Setsid: true}
+		if err := d.Start(); err != nil {
+			os.Exit(6)
+		}
+		fmt.Fprintf(rf, "L %d\n", d.Process.Pid)
 	}
 	sig := make(chan os.Signal, 4)
 	signal.Notify(sig, syscall.SIGTERM)
@@ -188,9 +222,27 @@ func runCase(c Case, idx int, barrier func()) result {
 	report := filepath.Join(reportDir, fmt.Sprintf("r%d", idx))
 	os.Remove(report)
 	defer os.Remove(report)
+	// whatever happens, the lingering descendant (if any) is killed at the end
+	defer func() {
+		if b, err := os.ReadFile(report); err == nil {
+			for _, l := range strings.Split(string(b), "\n") {
+				if f := strings.Fields(l); len(f) == 2 && f[0] == "L" {
+					if pid, err := strconv.Atoi(f[1]); err == nil && pid > 1 {
+						syscall.Kill(pid, syscall.SIGKILL)
+					}
+				}
+			}
+		}
+	}()
 	cmd := exec.Command(selfExe)
-	cmd.Env = append(os.Environ(), fmt.Sprintf("VERIF_C35_CHILD=self=%d,stdin=%d,term=%d,report=%s", c.Self, c.Stdin, c.Term, report))
-	stream, err := transport.NewStream(cmd, nil)
+	linger := 0
+	if c.Linger {
+		linger = 1
+	}
+	cmd.Env = append(os.Environ(), fmt.Sprintf("VERIF_C35_CHILD=self=%d,stdin=%d,term=%d,linger=%d,report=%s", c.Self, c.Stdin, c.Term, linger, report))
+	// as the transports do: with a receiver for the agent's standard error
+	errorOutput := &lockedBuffer{}
+	stream, err := transport.NewStream(cmd, errorOutput)
 	if err != nil {
 		panic(err)
 	}
@@ -254,6 +306,9 @@ func runCase(c Case, idx int, barrier func()) result {
 			if len(f) < 2 {
 				continue
 			}
+			if f[0] == "L" {
+				continue
+			}
 			ns, _ := strconv.ParseInt(f[1], 10, 64)
 			if f[0] == "J" {
 				// a stall of the child's probe that ended after Close was called
@@ -296,8 +351,8 @@ func b(x bool) string {
 }
 
 func render(c Case, r result) (string, bool, []string) {
-	coq := fmt.Sprintf("(%d, Pr %s %s %s, Ob %s %s %d %s %s %s %d)", c.D,
-		optN(int64(c.Self)), optN(int64(c.Stdin)), optN(int64(c.Term)),
+	coq := fmt.Sprintf("(%d, Pr %s %s %s %s, Ob %s %s %d %s %s %s %d)", c.D,
+		optN(int64(c.Self)), optN(int64(c.Stdin)), optN(int64(c.Term)), b(c.Linger),
 		b(r.returned), b(r.dead), r.ret, optN(r.eof), optN(r.term), b(r.killed), r.noise)
 	stage := "self"
 	switch {
@@ -324,6 +379,9 @@ func render(c Case, r result) (string, bool, []string) {
 	if !r.returned {
 		tags = append(tags, "no-return")
 	}
+	if c.Linger {
+		tags = append(tags, "lingering-descendant-holds-stderr")
+	}
 	if r.noise > 250 {
 		tags = append(tags, "noisy(stage-not-compared)")
 	}
@@ -333,7 +391,12 @@ func render(c Case, r result) (string, bool, []string) {
 const header = "From Coq Require Import List NArith.\nImport ListNotations.\nFrom Mv Require Import Model.AgentClose Harness.AgentCloseH.\nOpen Scope N_scope."
 
 func main() {
-	if spec := os.Getenv("VERIF_C35_CHILD"); spec != "" {
+	if spec := os.Getenv("VERIF_C35_CHILD"); spec == "lingerer" {
+		// the descendant: holds the inherited standard error and does nothing
+		signal.Ignore(syscall.SIGTERM, syscall.SIGHUP)
+		time.Sleep(90 * time.Second)
+		return
+	} else if spec != "" {
 		child(spec)
 		return
 	}
@@ -384,11 +447,14 @@ func main() {
 				{Self: -1, Stdin: 1500, Term: 100},
 			} {
 				c.D = d
-				cases, origins = append(cases, c), append(origins, "exhaustive")
+				for _, lg := range []bool{false, true} {
+					c.Linger = lg
+					cases, origins = append(cases, c), append(origins, "exhaustive")
+				}
 			}
 		}
-		w.Extra["exhaustive_scope"] = "13 characteristic agents (never; self/stdin/term at delays inside and beyond each wait; stdin too slow + term) x termination delay {0, 150 ms}"
-		n := 180
+		w.Extra["exhaustive_scope"] = "13 characteristic agents (never; self/stdin/term at delays inside and beyond each wait; stdin too slow + term) x termination delay {0, 150 ms} x {no descendant, a descendant that keeps standard error open}"
+		n := 160
 		if cfg.Thorough() {
 			n = 2500
 		}
@@ -413,6 +479,7 @@ func main() {
 			default:
 				c.Self, c.Stdin, c.Term = delay(c.D+2800), delay(2500), delay(1600)
 			}
+			c.Linger = r.Intn(2) == 0
 			cases, origins = append(cases, c), append(origins, "random")
 		}
 	}
